@@ -19,7 +19,7 @@ type c06Case struct {
 	Special string `json:"special,omitempty"`
 }
 
-var c06LayoutItems = []string{"T", "Ra", "Rb", "IFa", "IFb", "IFFa", "EACHa", "EACHb", "PV", "T2", "IFEa"}
+var c06LayoutItems = []string{"T", "Ra", "Rb", "IFa", "IFb", "IFFa", "EACHa", "EACHb", "PV", "T2", "IFEa", "AW", "PW"}
 
 func c06LayoutNode(ix, pos int) []*Node {
 	res := func(n string) *Node { return &Node{K: "reserve", Name: n} }
@@ -46,6 +46,10 @@ func c06LayoutNode(ix, pos int) []*Node {
 		return []*Node{{K: "each", Name: "i", E: &Expr{Op: "arr", Kids: []*Expr{eLit(vInt(1)), eLit(vInt(2))}}, Body: []*Node{nText("<"), res("b"), nText(">")}}}
 	case "PV":
 		return []*Node{nText("[v="), nPrint(eVar("v")), nText("]")}
+	case "AW":
+		return []*Node{nAssign("w", eLit(vStr("light")))}
+	case "PW":
+		return []*Node{nText("[w="), nPrint(eVar("w")), nText("]")}
 	}
 	panic("harness bug")
 }
@@ -61,7 +65,7 @@ func c06ItemReserve(ix int) string {
 	return ""
 }
 
-const c06InsForms = 7
+const c06InsForms = 8
 
 func c06Insert(name string, form int) *Node {
 	tag := strings.ToUpper(name)
@@ -78,6 +82,8 @@ func c06Insert(name string, form int) *Node {
 		return &Node{K: "insert", Name: name, E: eVar("v")}
 	case 6:
 		return &Node{K: "insert", Name: name, E: eBin("+", eLit(vStr("I"+tag+"+")), eVar("v"))}
+	case 7: // the body assigns a variable that the layout may read after the reserve
+		return &Node{K: "insert", Name: name, Body: []*Node{nAssign("w", eLit(vStr("dark"+tag))), nText("I" + tag + "-set")}}
 	}
 	return nil
 }
@@ -130,7 +136,14 @@ func c06Build(cs c06Case) c06Built {
 			page.Nodes = append(page.Nodes, nText(fmt.Sprintf(" junk%d\n", i+1)))
 		}
 	}
-	b.env = &tplEnv{files: map[string]*TplFile{layName: lay, "index": page}}
+	// a second page that uses the same layout with other inserts (uses of one layout must not interact)
+	page2 := &TplFile{Use: useName}
+	for _, n := range []*Node{c06Insert("a", (cs.InsA+2)%c06InsForms), c06Insert("b", (cs.InsB+3)%c06InsForms)} {
+		if n != nil && reserves[n.Name] {
+			page2.Nodes = append(page2.Nodes, n, nText(" "))
+		}
+	}
+	b.env = &tplEnv{files: map[string]*TplFile{layName: lay, "index": page, "zpage2": page2, "apage0": {Use: useName}}}
 	switch cs.Data {
 	case 0:
 		b.data = map[string]Val{"v": vStr("V")}
@@ -148,6 +161,8 @@ func c06Build(cs c06Case) c06Built {
 	b.tree.Files[layName+ext] = printFile(lay)
 	b.tree.Files["index"+ext] = printFile(page)
 	b.tree.Files["plain"+ext] = "plain page"
+	b.tree.Files["zpage2"+ext] = printFile(page2)
+	b.tree.Files["apage0"+ext] = printFile(&TplFile{Use: useName})
 	b.page = "index"
 	switch cs.Special {
 	case "duplicate-insert":
@@ -217,6 +232,18 @@ func c06Check(cs c06Case) (ok bool, sig, expected, observed string) {
 			return false, o.Kind + "@" + o.Site, expected, o.String()
 		}
 		return false, why + "/" + feature(), expected, o.String()
+	}
+	// the other pages of the tree that use the same layout render with their own inserts
+	for _, other := range []string{"zpage2", "apage0"} {
+		out2, st2 := renderModel(b.env, other, b.data)
+		exp2 := expectOf(out2, st2)
+		o2 := render(tpl, other, dataMap(b.data))
+		if good, why := conforms(exp2, o2); !good {
+			if o2.Kind == KPanic || o2.Kind == KHang {
+				return false, o2.Kind + "@" + o2.Site, exp2.String(), o2.String()
+			}
+			return false, why + "/second-page-of-layout/" + feature(), exp2.String() + " for page " + other + " of " + desc, o2.String()
+		}
 	}
 	// the plain page of the same tree still renders to itself
 	if po := render(tpl, "plain", nil); po.Kind != KOut || po.Out != "plain page" {
